@@ -497,6 +497,7 @@ func runC03(c *core.Ctx) {
 	cfgs = allCfgs
 
 	c.Affinity(-1)
+	c03Authority(c)
 	c03Reconfigured(c)
 	// artifact level: Issuer x Status on the ArtifactResponse itself
 	c.Group("artifact-level")
@@ -633,6 +634,116 @@ func c03Reconfigured(c *core.Ctx) {
 					}
 					t.Compared()
 					t.Outcome("reconfigured")
+				})
+			}
+		}
+	}
+}
+
+// c03Authority: URL-shaped near misses that differ from the right value only inside the authority or by a URL equivalence, in the
+// Recipient, the Destination and the audience, one at a time; and the received-at URL in the server-side relative form.
+func c03Authority(c *core.Ctx) {
+	c.Group("url-authority-near-misses")
+	acs := samlgen.SPAcs // https://sp.example.com/saml/acs
+	host := "sp.example.com"
+	rep := func(newAuthority string) string { return strings.Replace(acs, host, newAuthority, 1) }
+	type nm struct {
+		name string
+		v    string
+		same bool // an equivalent spelling of the same URL (either verdict is fine); otherwise a different origin / resource: must be refused
+	}
+	variants := []nm{
+		{"other-port-8443", rep(host + ":8443"), false}, {"other-port-444", rep(host + ":444"), false}, {"port-80", rep(host + ":80"), false},
+		{"explicit-default-port-443", rep(host + ":443"), true}, {"uppercase-host", rep("SP.EXAMPLE.COM"), true}, {"trailing-dot-host", rep(host + "."), true},
+		{"userinfo", rep("sp.example.com@evil.example.net"), false}, {"userinfo-before", rep("evil.example.net@" + host), false}, {"host-suffix", rep(host + ".evil.example.net"), false},
+		{"host-prefix", rep("evil-" + host), false}, {"scheme-http", strings.Replace(acs, "https://", "http://", 1), false}, {"scheme-uppercase", strings.Replace(acs, "https://", "HTTPS://", 1), true},
+		{"percent-encoded-path-char", strings.Replace(acs, "/saml/acs", "/saml/%61cs", 1), true}, {"double-slash-path", strings.Replace(acs, "/saml/acs", "//saml/acs", 1), false},
+		{"dot-segment", strings.Replace(acs, "/saml/acs", "/saml/./acs", 1), true}, {"fragment", acs + "#f", false}, {"empty-port", rep(host + ":"), true}, {"ipv6-literal", rep("[::1]"), false},
+		{"punycode-lookalike", rep("sp.examp1e.com"), false}, {"backslash", strings.Replace(acs, "/saml/acs", "\\saml\\acs", 1), false},
+	}
+	sps := map[bool]*saml.ServiceProvider{false: harness.NewSP(harness.SPOpt{}), true: harness.NewSP(harness.SPOpt{AllowIDPInit: true})}
+	for _, field := range []string{"recipient", "destination", "audience", "recipient-of-second-confirmation"} {
+		for _, vr := range variants {
+			for _, lay := range []harness.Layout{{SignResponse: true}, {SignAssertion: true}} {
+				for _, idpInit := range []bool{false, true} {
+					field, vr, lay, idpInit := field, vr, lay, idpInit
+					key := fmt.Sprintf("authority/%s=%s/lay=%s/idpinit=%v", field, vr.name, lay, idpInit)
+					c.Case(key, func(t *core.T) {
+						t.NonTrivial()
+						resp := samlgen.DefaultResponse()
+						a := samlgen.DefaultAssertion()
+						val := vr.v
+						switch field {
+						case "recipient":
+							a.Confirmations[0].Recipient = samlgen.S(val)
+						case "recipient-of-second-confirmation":
+							c2 := a.Confirmations[0]
+							c2.Recipient = samlgen.S(val)
+							a.Confirmations = append(a.Confirmations, c2)
+						case "destination":
+							resp.Destination = samlgen.S(val)
+						case "audience":
+							val = strings.Replace(vr.v, acs, samlgen.SPEntity, 1)
+							if val == vr.v { // the variant did not contain the ACS URL verbatim: derive it from the entity ID instead
+								val = strings.Replace(strings.Replace(vr.v, "/saml/acs", "", 1), "https://"+host, samlgen.SPEntity, 1)
+							}
+							a.Audiences = [][]string{{strings.Replace(vr.v, "/saml/acs", "/entity", 1)}}
+						}
+						doc := samlgen.Doc(harness.BuildResponse(resp, []*samlgen.Assertion{a}, lay, idp1(), spKey()))
+						got, err := parseXML(sps[idpInit], doc, []string{samlgen.ReqID})
+						t.Impl(1)
+						checkAPIContract(t, got, err)
+						v := core.MustReject
+						if vr.same {
+							v = core.DontCare
+						}
+						t.Outcome(harness.ErrClass(err))
+						judge(t, v, err, "C03/authority/"+field, key)
+						if t.Failed() {
+							t.Input("response_xml", string(doc))
+						}
+					})
+				}
+			}
+		}
+	}
+	// the URL the response was received at, as a server sees it (no scheme, no host): it can vouch for a Destination only if that
+	// Destination is this SP's
+	c.Group("relative-received-at-url")
+	for _, cur := range []string{"/saml/acs", "/saml/acs?x=1", "//sp.example.com/saml/acs", "saml/acs", ""} {
+		for _, dest := range []struct {
+			name string
+			v    string
+			v3   core.Verdict
+		}{{"acs", acs, core.MustAccept}, {"foreign-host-same-path", "https://login.partner.example/saml/acs", core.MustReject}, {"foreign-host-same-path-and-query", "https://login.partner.example/saml/acs?x=1", core.MustReject},
+			{"relative-same-as-received", "/saml/acs", core.MustReject}, {"other-scheme-same-host", "http://sp.example.com/saml/acs", core.MustReject}} {
+			for _, lay := range []harness.Layout{{SignResponse: true}, {SignAssertion: true}} {
+				cur, dest, lay := cur, dest, lay
+				key := fmt.Sprintf("relative-current/%+q/dest=%s/lay=%s", cur, dest.name, lay)
+				c.Case(key, func(t *core.T) {
+					t.NonTrivial()
+					resp := samlgen.DefaultResponse()
+					resp.Destination = samlgen.S(dest.v)
+					doc := samlgen.Doc(harness.BuildResponse(resp, []*samlgen.Assertion{samlgen.DefaultAssertion()}, lay, idp1(), spKey()))
+					u, perr := url.Parse(cur)
+					if perr != nil {
+						t.Outcome("unparseable-current")
+						return
+					}
+					sp := harness.NewSP(harness.SPOpt{})
+					got, err := sp.ParseXMLResponse(doc, []string{samlgen.ReqID}, *u)
+					t.Impl(1)
+					checkAPIContract(t, got, err)
+					t.Outcome(harness.ErrClass(err))
+					v3 := dest.v3
+					if dest.v == cur {
+						v3 = core.DontCare // the statement admits a Destination equal to the URL the response was received at, whatever its form
+					}
+					judge(t, v3, err, "C03/relative-current", key)
+					if t.Failed() {
+						t.Input("response_xml", string(doc))
+						t.Input("received_at", cur)
+					}
 				})
 			}
 		}
